@@ -10,21 +10,41 @@ from sa.h import *
 EXPLANATION = (
     "Decided (structural, all paths): (1) active-segment typestate of DownloadNode: every function that retires the "
     "active SegmentFetcher (fetch_failed, the addBoth callback of process_blocks, _cancel_request after stop()) "
-    "reaches its normal exit only after `self._active_segment = None` followed by _start_new_segment(); "
+    "reaches its normal exit only after `self._active_segment = None` followed by _start_new_segment(); fetch_failed "
+    "has a normal path for the fetcher that IS the active one, and the process_blocks callback has a path for a Failure "
+    "that does not unpack it like a segment; _cancel_request keeps every queued request except the cancelled one; "
     "get_segment queues the request and then calls _start_new_segment(); _start_new_segment installs a fetcher only "
     "under `_active_segment is None` and always wakes it with add_shares; (2) SegmentFetcher: every report to the "
     "node (fetch_failed / process_blocks / _no_shares_error) is preceded by stop(), happens at most once per pass, "
     "every stop() is followed by exactly one report, no share work after a report, and loop() turns any exception of "
     "_do_loop into fetch_failed(self, ..); (3) ShareFinder.loop returns without scheduling itself or no_more_shares "
-    "only when stopped, not hungry, at the request limit or with a request in flight; every DYHB request retires "
-    "(addBoth) and retiring removes it from pending_requests; (4) Segmentation: _request_retired is an addBoth that "
+    "only when stopped, not hungry, at the request limit or with a request in flight; it reaches send_request only "
+    "with a server taken from the list (tested, or just returned by next()) and its server variable is bound on every "
+    "path; every DYHB request retires (addBoth) and retiring removes it from pending_requests; (4) Segmentation: "
+    "_request_retired is an addBoth that "
     "clears _active_segnum before _got_segment, every exit of _fetch_next fires or arms (_error errback) the read's "
-    "Deferred, _error/stopProducing fire it, and every consumer of a segment re-enters _maybe_fetch_next; (5) every "
+    "Deferred, _error/stopProducing fire it, every consumer of a segment re-enters _maybe_fetch_next, and _got_segment "
+    "updates the remaining _size before it does; (5) every "
     "request extracted for a finished segment is handed to DownloadNode._deliver, which fires its Deferred unless "
-    "cancelled, and the delivery callback is an addBoth. The wake-up discipline of fetcher/finder/share handlers is "
-    "decided by C03.1. Undecided: progress under arbitrary schedules (that the chosen shares eventually answer), "
-    "exceptions raised by calls the CFG does not model as raising.")
-TECHNIQUE = "static analysis: CFG x typestate monitors (reset/restart, stop/report), must-pass path queries, Deferred chain order"
+    "cancelled, the delivery callback is an addBoth, and _extract_requests returns the requests whose segment number "
+    "equals its argument and keeps exactly the complement; (7) SegmentFetcher._do_loop returns without a report only on "
+    "a path that shows something outstanding: k <= blocks+active and blocks < k (an active request), or blocks+active "
+    "< k <= blocks+active+overdue (an overdue request), or `not _no_more_shares` after asking for more shares, or a "
+    "stopped fetcher; every turn of its while loop sent a request or raised the per-server limit that held shares "
+    "back (no spinning). (6) adopted from C03, whose rules decide them: the wake-up discipline of fetcher / finder / "
+    "node / share handlers (C03.1), the per-state bookkeeping of _block_request_activity (C03.2: a finished share left "
+    "in the active or overdue map is waited for for ever), share abandonment (C03.3), the is_alive() filter (C03.6) "
+    "and the hand-over of shares, observers and block requests (C03.7: an observer that is not registered, a picked "
+    "share that is not started, a request retired without notification all leave the fetcher waiting). C03.2 / C03.7 "
+    "also contain clauses whose violation ends in a wrong not-enough-shares error rather than a hang (COMPLETE stores "
+    "the block, OVERDUE enters the overdue map, add_shares keeps the shares, the sent_something flag); they are "
+    "reported under C46.6 too because the rules are adopted whole. Undecided: progress under arbitrary schedules (that "
+    "the chosen shares eventually answer), the byte ranges a Share requests (a Share asking for the wrong range never "
+    "completes its block), by how much _got_segment reduces _size, which segment number _start_new_segment / "
+    "_fetch_next choose, the per-server-limit comparison of _find_and_use_share, None-dereferences and other "
+    "exceptions raised by calls the CFG does not model as raising (e.g. a deleted local that turns into a NameError "
+    "before the reset).")
+TECHNIQUE = "static analysis: CFG x typestate monitors (reset/restart, stop/report), must-pass path queries, per-path edge-fact sets (what a waiting fetcher knows), normal-form comparison of queue filters, Deferred chain order"
 
 NODE = "immutable.downloader.node:DownloadNode"
 FETCH = "immutable.downloader.fetcher:SegmentFetcher"
@@ -144,6 +164,107 @@ def _is_none(e):
     return isinstance(e, ast.Constant) and e.value is None
 
 
+def _completes_when(fn, infeasible, dies=None):
+    """(the normal exit is reachable along normal edges whose fact does not satisfy `infeasible` and
+    without executing a `dies` node, number of states).  Used to ask whether a handler still gets through
+    for the one situation it exists for (the active fetcher failing, a Failure being delivered)."""
+    cfg = fn.cfg()
+    fx = FlowNorm(fn)
+
+    def transfer(n, lab, nxt, st):
+        if lab == "exc":
+            return None
+        if n.kind not in ("entry", "exit", "raise") and dies is not None and dies(n):
+            return None
+        f = fx.edge_fact(n, lab)
+        if f and infeasible(*f):
+            return None
+        return 0
+    visited, _parent = explore(cfg, 0, transfer)
+    return (cfg.exit.id, 0) in visited, len(visited)
+
+
+def _destructures(name):
+    """node unpacks / indexes / iterates the plain name `name` (which a Failure does not support)."""
+    def is_name(e):
+        return isinstance(e, ast.Name) and e.id == name
+
+    def p(n):
+        a = n.ast
+        if n.kind == "iter":
+            return is_name(a.iter)
+        if n.kind == "stmt" and isinstance(a, ast.Assign) and is_name(a.value) \
+                and any(isinstance(t, (ast.Tuple, ast.List)) for t in a.targets):
+            return True
+        for e in node_exprs(n):
+            for x in own_nodes(e):
+                if isinstance(x, ast.Subscript) and is_name(x.value):
+                    return True
+                if isinstance(x, ast.Starred) and is_name(x.value):
+                    return True
+        return False
+    return p
+
+
+_NEG = {"==": "!=", "!=": "==", "is": "is not", "is not": "is"}
+_NEVER = (("false", "True", None), ("truth", "False", None), ("false", "1", None), ("truth", "0", None), ("truth", "None", None))
+
+
+def _queue_filters(fn, queue="self._segment_requests"):
+    """Comprehensions of `fn` that walk the request queue: [(comprehension, [cond, ..])] where a cond is
+    (op, position of the request field compared, normal form of the other side) or None when the condition
+    is not a comparison of one field of the request."""
+    out = []
+    nrm = N(fn)
+    for x in func_own_nodes(fn):
+        if not isinstance(x, (ast.ListComp, ast.GeneratorExp, ast.SetComp)) or len(x.generators) != 1:
+            continue
+        g = x.generators[0]
+        if attr_path(g.iter) != queue:
+            continue
+        field = {}
+        if isinstance(g.target, ast.Name):
+            whole = g.target.id
+        else:
+            whole = None
+            if isinstance(g.target, (ast.Tuple, ast.List)):
+                for i, t in enumerate(g.target.elts):
+                    if isinstance(t, ast.Name):
+                        field[t.id] = i
+        conds = []
+        for c in g.ifs:
+            f = nrm.cmp(c, True)
+            got = None
+            if f and f[0] in _NEG and f[2] is not None:
+                for (a, b) in ((f[1], f[2]), (f[2], f[1])):
+                    m = re.match(r"^%s\[(\d+)\]$" % re.escape(whole), a) if whole else None
+                    if m:
+                        got = (f[0], int(m.group(1)), b)
+                    elif a in field:
+                        got = (f[0], field[a], b)
+            conds.append(got)
+        out.append((x, conds))
+    return out
+
+
+def _value_of(cfg, rd, n, e, depth=4):
+    """Follow plain-name copies of `e` (read at node n) to the single expression that defines it."""
+    while depth > 0 and isinstance(e, ast.Name):
+        ds = [d for d in rd.get(n.id, {}).get(e.id, frozenset()) if d >= 0]
+        vals = [assign_value(cfg.nodes[d], e.id) for d in ds]
+        if len(vals) != 1 or vals[0] is None:
+            break
+        n, e, depth = cfg.nodes[ds[0]], vals[0], depth - 1
+    return e
+
+
+def _reads(name):
+    def p(n):
+        return any(isinstance(x, ast.Name) and x.id == name and isinstance(x.ctx, ast.Load)
+                   for e in node_exprs(n) for x in ast.walk(e))
+    return p
+
+
 # --------------------------------------------------------------------- rules
 def run(ctx: Context):
     idx = ctx.idx
@@ -164,7 +285,8 @@ def run(ctx: Context):
     # -- 1. active-segment typestate ----------------------------------------
     with ctx.rule("C46.1", "R1/E3", "DownloadNode: whoever retires the active fetcher resets _active_segment to None "
                   "and then calls _start_new_segment(); get_segment queues then starts; _start_new_segment installs a "
-                  "fetcher only when none is active and wakes it", expected=5) as r:
+                  "fetcher only when none is active and wakes it; the retiring functions complete for the case they serve; "
+                  "_cancel_request keeps the other requests", expected=8) as r:
         def typestate(fn, stopped0):
             cfg = fn.cfg()
 
@@ -204,6 +326,49 @@ def run(ctx: Context):
         if not cr.cfg().find(lambda n: any(call_tail(c) == "stop" for c in node_calls(n))):
             raise AnchorVanished("_cancel_request no longer stops the active fetcher")
         typestate(cr, False)
+
+        # the retiring functions get through for the situation they exist for
+        ff0 = idx.func(NODE + ".fetch_failed")
+        sfp = first_positional_params(ff0)[0]
+        ok, k = _completes_when(ff0, lambda op, l, rr: (
+            (op in ("is not", "!=") and {l, rr} == {sfp, "self._active_segment"})
+            or (op in ("is", "==") and {l, rr} == {"None", "self._active_segment"})
+            or (op == "false" and l == "self._active_segment")))
+        r.count(k)
+        r.site(ff0, None, "completes for the active fetcher")
+        r.require(ok, ff0, ff0.loc(), "fetch_failed(%s, ..) reaches its normal exit only when %s is NOT the active fetcher: "
+                  "for the fetcher that reports its failure it raises before _active_segment is reset, so the "
+                  "segment's readers and every later read on this node wait for ever" % (sfp, sfp))
+        resp = first_positional_params(deliver_fn)[0] if first_positional_params(deliver_fn) else None
+        if resp is None:
+            raise AnchorVanished("the delivery callback of process_blocks takes no result")
+        is_fail = re.compile(r"^isinstance\(%s, (\w+\.)*Failure\)$" % re.escape(resp))
+        r.site(deliver_fn, None, "completes for a Failure")
+        if deliver_reg.kind in ("both", "eb"):       # (a callback-only registration is reported by C46.5)
+            ok, k = _completes_when(deliver_fn, lambda op, l, rr: op == "false" and bool(is_fail.match(l or "")),
+                                    _destructures(resp))
+            r.count(k)
+            r.require(ok, deliver_fn, deliver_fn.loc(), "%s is called with the Failure of a decode / ciphertext-hash error, "
+                      "but every path that is open for a Failure unpacks `%s` like a segment tuple: it raises before "
+                      "_active_segment is reset and the node never starts another segment" % (short(deliver_fn), resp))
+
+        # cancelling one request leaves every other request in the queue
+        cparam = first_positional_params(cr)[0]
+        kept = [n for n in cr.cfg().find(stores("self._segment_requests"))]
+        crd = C.reaching_defs(cr.cfg())
+        for n in kept:
+            v = _value_of(cr.cfg(), crd, n, assign_value(n, "self._segment_requests"))
+            flt = [c for (x, c) in _queue_filters(cr) if x is v]
+            if not flt:
+                if attr_path(v) is not None or (isinstance(v, ast.Call) and call_tail(v) in ("list", "tuple")):
+                    continue
+                raise AnalysisError("_cancel_request rebuilds _segment_requests in a form the rule cannot read: %s" % src(cr, v))
+            r.site(cr, n.ast, "keeps the other requests")
+            for c in flt[0]:
+                r.require(c is not None and c[0] in ("!=", "is not") and c[2] == cparam, cr, cr.loc(n.ast),
+                          "_cancel_request keeps a queued request only if `%s`: requests of OTHER readers are dropped "
+                          "from _segment_requests without being fired, so a concurrent read on this node hangs"
+                          % src(cr, v.generators[0].ifs[flt[0].index(c)]))
 
         gs = idx.func(NODE + ".get_segment")
         r.site(gs, None, "queue then start")
@@ -341,9 +506,153 @@ def run(ctx: Context):
                     r.violation(lp, lp.loc(h.ast), "the catch-all handler of SegmentFetcher.loop can finish without "
                                 "fetch_failed(self, ..) (path: %s)" % w.brief(), w)
 
+    # -- 7. the fetcher waits only for something, and its loop makes progress ----
+    with ctx.rule("C46.7", "R1/E3", "SegmentFetcher._do_loop returns without a report only while a block request is "
+                  "outstanding (active or overdue) or more shares were asked for and may come; every turn of its while "
+                  "loop sent a request or raised the per-server limit it was held back by", expected=2) as r:
+        dl = idx.func(FETCH + "._do_loop")
+        cfg = dl.cfg()
+        fx = FlowNorm(dl)
+        MAPS = ("_blocks", "_active_share_map", "_overdue_share_map")
+        KL = {("_blocks",): "B", ("_blocks", "_active_share_map"): "BA", MAPS: "BAO"}
+
+        def klass(s):
+            m = re.match(r"^len\((.*)\)$", s or "")
+            if not m:
+                return None
+            attrs = set(re.findall(r"self\.(\w+)", m.group(1)))
+            return KL.get(tuple(a for a in MAPS if a in attrs)) if attrs <= set(MAPS) else None
+
+        def on_cycle(n):
+            for (d, l) in cfg.succ[n.id]:
+                if l == "exc":
+                    continue
+                vis, _p = explore(cfg, 0, lambda m, lab, nxt, st: None if lab == "exc" else 0, start=cfg.nodes[d])
+                if (n.id, 0) in vis:
+                    return True
+            return False
+        heads = []
+        for n in cfg.nodes:
+            if n.kind != "test":
+                continue
+            for (d, l) in cfg.succ[n.id]:
+                f = fx.edge_fact(n, l) if l != "exc" else None
+                if f and f[0] in ("<", "<=") and f[2] is not None and (klass(f[1]) == "BA" or klass(f[2]) == "BA") and on_cycle(n):
+                    heads.append((n, f[2] if klass(f[1]) else f[1]))
+                    break
+        if not heads:
+            raise AnchorVanished("_do_loop no longer loops on a comparison of blocks + active requests with k")
+        K = heads[0][1]
+
+        def kfact(f):
+            if not f:
+                return None
+            op, l, rr = f
+            if op in ("truth", "false") and l == "self._no_more_shares":
+                return ("nomore", op == "truth")
+            if op in ("<", "<=") and rr == K and klass(l):
+                return (klass(l), "lt" if op == "<" else "le")
+            if op in ("<", "<=") and l == K and klass(rr):
+                return (klass(rr), "gt" if op == "<" else "ge")
+            return None
+        ASK = ("self._ask_for_more_shares", "self._node.want_more_shares")
+        TELL = ("self._node.fetch_failed", "self._node.process_blocks", "self._no_shares_error")
+
+        def transfer(n, lab, nxt, st):
+            if lab == "exc":
+                return None      # an exception ends in loop()'s handler, which reports (C46.2)
+            if n.kind in ("entry", "exit", "raise"):
+                return st
+            facts, asked, told = st
+            f = fx.edge_fact(n, lab)
+            if f == ("false", "self._running", None):
+                return None      # a stopped fetcher has nothing to wait for
+            if f in _NEVER:
+                return None      # `while True:` is never left by its false edge
+            kf = kfact(f)
+            if kf is not None:
+                facts = frozenset(x for x in facts if x[0] != n.id) | {(n.id, kf)}
+            for c in node_calls(n):
+                nm = _cn(dl, n, c)
+                if nm in ASK:
+                    asked = True
+                elif nm in TELL:
+                    told = True
+            return (facts, asked, told)
+        visited, parent = explore(cfg, (frozenset(), False, False), transfer)
+        r.count(len(visited))
+        r.site(dl, None, "waits only for something outstanding")
+        seen = set()
+        for (nid, st) in sorted(visited, key=lambda x: (x[0], sorted(x[1][0]), x[1][1], x[1][2])):
+            if nid != cfg.exit.id or st[2]:
+                continue
+            fs = {kf for (_i, kf) in st[0]}
+            active = (("BA", "ge") in fs or ("BA", "gt") in fs) and ("B", "lt") in fs
+            overdue = ("BA", "lt") in fs and (("BAO", "ge") in fs or ("BAO", "gt") in fs)
+            coming = ("nomore", False) in fs and st[1]
+            if active or overdue or coming:
+                continue
+            key = (tuple(sorted(fs)), st[1])
+            if key in seen:
+                continue
+            seen.add(key)
+            w = witness(cfg, parent, (nid, st))
+            known = ", ".join("%s %s" % (a, b) for (a, b) in sorted(map(lambda t: (str(t[0]), str(t[1])), fs))) or "nothing"
+            r.violation(dl, dl.loc(), "_do_loop can return without reporting to the node although nothing it could wait for "
+                        "is known to be outstanding: the path shows neither (%s <= blocks+active and blocks < %s: an active "
+                        "request), nor (blocks+active < %s <= blocks+active+overdue: an overdue request), nor (more shares may "
+                        "come and were asked for); nobody wakes this fetcher again and the segment's readers wait for ever "
+                        "(known on the path: %s%s; path: %s)" % (K, K, K, known, "; asked for shares" if st[1] else "", w.brief()), w)
+
+        def raises_limit(n):
+            a = n.ast
+            if n.kind != "stmt" or "self._max_shares_per_server" not in node_stores(n):
+                return False
+            if isinstance(a, ast.AugAssign):
+                return isinstance(a.op, ast.Add) and isinstance(a.value, ast.Constant) and isinstance(a.value.value, int) \
+                    and a.value.value > 0
+            v = assign_value(n, "self._max_shares_per_server")
+            return v is not None and re.match(r"^\(?[1-9]\d* \+ self\._max_shares_per_server\)?$", fx.norm(n, v) or "") is not None
+
+        def fus(f, i):
+            return bool(f) and f[0] == "truth" and re.search(r"_find_and_use_share\(\)\[%d\]$" % i, f[1] or "") is not None
+        h = heads[0][0]
+        r.site(dl, h.ast, "every turn makes progress")
+        for (d, l) in cfg.succ[h.id]:
+            if l == "exc":
+                continue
+            f0 = fx.edge_fact(h, l)
+            if fus(f0, 0):
+                continue
+
+            def turn(n, lab, nxt, st, _h=h):
+                if lab == "exc" or n is _h:
+                    return None
+                f = fx.edge_fact(n, lab)
+                if f in _NEVER:
+                    return None
+                if fus(f, 0):
+                    return None                  # a request was sent
+                if fus(f, 1):
+                    st = 1
+                if st == 1 and raises_limit(n):
+                    return None                  # held back by the per-server limit, which was raised
+                return st
+            vis, par = explore(cfg, 1 if fus(f0, 1) else 0, turn, start=cfg.nodes[d])
+            r.count(len(vis))
+            back = [(nid, st) for (nid, st) in sorted(vis) if nid == h.id]
+            if back:
+                w = witness(cfg, par, back[0])
+                r.violation(dl, dl.loc(h.ast), "_do_loop can go round its while loop without having sent a request "
+                            "(_find_and_use_share()[0]) and without having raised _max_shares_per_server for shares that were "
+                            "held back by it (_find_and_use_share()[1]): nothing has changed, so the loop spins for ever and "
+                            "the whole reactor with it (path: %s)" % w.brief(), w)
+                break
+
     # -- 3. finder ----------------------------------------------------------
     with ctx.rule("C46.3", "R1/E7", "ShareFinder: loop() goes idle only for a stated reason, every DYHB request retires "
-                  "on both outcomes and leaves pending_requests", expected=3) as r:
+                  "on both outcomes and leaves pending_requests; send_request is reached only with a server taken from the "
+                  "list", expected=4) as r:
         lp = idx.func(FINDER + ".loop")
         r.site(lp, None, "idle reasons")
 
@@ -368,6 +677,31 @@ def run(ctx: Context):
         sends = lp.cfg().find(_calls(lp, "self.send_request"))
         if not sends:
             raise AnchorVanished("ShareFinder.loop no longer calls send_request")
+        scalls = [c for n in sends for c in node_calls(n) if call_tail(c) == "send_request"]
+        srv = attr_path(scalls[0].args[0]) if scalls and scalls[0].args else None
+        if srv is None:
+            raise AnchorVanished("ShareFinder.loop no longer calls send_request(<server variable>)")
+        fx3 = FlowNorm(lp)
+
+        def have_server(n, lab):
+            f = fx3.edge_fact(n, lab)
+            return f in (("truth", srv, None), ("is not", "None", srv), ("!=", "None", srv))
+
+        def took_server(n):
+            v = assign_value(n, srv) if srv in node_stores(n) else None
+            return isinstance(v, ast.Call) and call_tail(v) == "next"
+        r.site(lp, scalls[0], "queries only a server it obtained")
+        for (n, w) in find_path_avoiding(lp.cfg(), _calls(lp, "self.send_request"), gate_node=took_server,
+                                         gate_edge=have_server, kill=stores(srv)):
+            r.violation(lp, lp.loc(n.ast), "send_request(%s) is reached without `%s` having been tested: once the server list "
+                        "is exhausted the query of `None` dies after entering pending_requests, which never empties again, "
+                        "so no_more_shares is never announced and a read with too few shares waits for ever (path: %s)"
+                        % (srv, srv, w.brief()), w)
+        if "." not in srv and srv not in lp.params:
+            for (n, w) in find_path_avoiding(lp.cfg(), _reads(srv), gate_node=stores(srv)):
+                r.violation(lp, lp.loc(n.ast), "`%s` is read but not bound on a path (%s): with the server list exhausted the "
+                            "loop dies with UnboundLocalError before it can announce no_more_shares" % (srv, w.brief()), w)
+                break
 
         sr = idx.func(FINDER + ".send_request")
         dv3 = _deferred_var(sr, "get_buckets")
@@ -397,7 +731,7 @@ def run(ctx: Context):
     # -- 4. Segmentation ----------------------------------------------------
     with ctx.rule("C46.4", "R1/E7", "Segmentation: _request_retired is an addBoth ahead of _got_segment and clears "
                   "_active_segnum; every path fires or arms the read's Deferred; segment consumers re-enter "
-                  "_maybe_fetch_next", expected=9) as r:
+                  "_maybe_fetch_next; _got_segment updates _size before it continues", expected=10) as r:
         fnx = idx.func(SEG + "._fetch_next")
         dv4 = _deferred_var(fnx, "get_segment")
         chain = [x for x in registrations(fnx) if x.recv == dv4]
@@ -440,6 +774,14 @@ def run(ctx: Context):
             f = idx.func(SEG + "." + name)
             r.site(f, None, "continues the read")
             _must_pass(r, f, _calls(f, "self._maybe_fetch_next"), "calling _maybe_fetch_next()")
+        # the read shrinks with every segment consumed (otherwise the same segment is fetched again, for ever)
+        gsg = idx.func(SEG + "._got_segment")
+        r.site(gsg, None, "consumes: updates _size")
+        for (n, w) in find_path_avoiding(gsg.cfg(), _calls(gsg, "self._maybe_fetch_next"), gate_node=stores("self._size"),
+                                         skip_exc_edges=True):
+            r.violation(gsg, gsg.loc(n.ast), "_got_segment asks for the next segment without having updated self._size: the "
+                        "remaining size never reaches 0, so the read fetches segments for ever and its Deferred never "
+                        "fires (path: %s)" % w.brief(), w)
         mf = idx.func(SEG + "._maybe_fetch_next")
         r.site(mf, None)
         _must_pass(r, mf, _calls(mf, "self._fetch_next"), "calling _fetch_next()", _fact_excuse(
@@ -454,7 +796,8 @@ def run(ctx: Context):
 
     # -- 5. delivery of queued requests -------------------------------------
     with ctx.rule("C46.5", "R1/E7", "every request extracted for a finished segment is handed to DownloadNode._deliver, "
-                  "which fires it unless cancelled; the delivery callback of process_blocks is an addBoth", expected=5) as r:
+                  "which fires it unless cancelled; the delivery callback of process_blocks is an addBoth; _extract_requests "
+                  "returns the requests of that segment and keeps exactly the others", expected=6) as r:
         r.site(pb, deliver_reg.call, "delivery registration")
         r.require(deliver_reg.kind == "both", pb, pb.loc(deliver_reg.call), "the delivery callback is registered as %s: a "
                   "decode or ciphertext-hash failure is never delivered and the segment's readers wait for ever" % deliver_reg.kind)
@@ -492,6 +835,38 @@ def run(ctx: Context):
                             w = witness(cfg, parent, (end, 0))
                             r.violation(fn, fn.loc(h.ast), "a request taken off _segment_requests is not handed to "
                                         "_deliver: its reader never hears about the segment (path: %s)" % w.brief(), w)
+        # _extract_requests splits the queue: what it does not hand back stays queued
+        er = idx.func(NODE + "._extract_requests")
+        eparam = first_positional_params(er)[0]
+        ecfg = er.cfg()
+        fl = _queue_filters(er)
+        keep_nodes = ecfg.find(stores("self._segment_requests"))
+        keep = [(x, c) for (x, c) in fl if any(assign_value(n, "self._segment_requests") is x for n in keep_nodes)]
+        retire = [(x, c) for (x, c) in fl if not any(x is k for (k, _c) in keep)]
+        if len(keep) != 1 or len(retire) != 1 or len(keep_nodes) != 1:
+            raise AnchorVanished("_extract_requests no longer splits _segment_requests with one filter for the requests it "
+                                 "returns and one for those it keeps")
+        r.site(er, retire[0][0], "returned + kept = queue")
+        rc, kc = retire[0][1], keep[0][1]
+        r.require(len(rc) == 1 and rc[0] is not None and rc[0][0] in ("==", "is") and rc[0][2] == eparam, er, er.loc(retire[0][0]),
+                  "_extract_requests(%s) does not return the requests whose segment number equals `%s` (filter: %s): the "
+                  "readers of the finished segment are never fired" % (eparam, eparam, src(er, retire[0][0])))
+        r.require(len(kc) == 1 and len(rc) == 1 and None not in (kc[0], rc[0]) and kc[0] == (_NEG[rc[0][0]], rc[0][1], rc[0][2]),
+                  er, er.loc(keep[0][0]), "_extract_requests keeps `%s` but returns `%s`: the two filters are not "
+                  "complementary, so a queued request can be dropped from _segment_requests without ever being fired"
+                  % (src(er, keep[0][0]), src(er, retire[0][0])))
+        retire_node = [n for n in ecfg.nodes if n.kind == "stmt" and any(x is retire[0][0] for e in node_exprs(n) for x in ast.walk(e))]
+        for (n, w) in find_path_avoiding(ecfg, lambda m: m in keep_nodes, gate_node=lambda m: m in retire_node):
+            r.violation(er, er.loc(n.ast), "_extract_requests shrinks the queue before it has collected the requests to "
+                        "retire: they are lost (path: %s)" % w.brief(), w)
+        returned = [n for n in ecfg.find(is_return)]
+        rd = C.reaching_defs(ecfg)
+
+        value_of = lambda n, e: _value_of(ecfg, rd, n, e)
+        r.require(bool(returned) and all(n.ast.value is not None and any(x is retire[0][0] for x in ast.walk(
+            value_of(n, n.ast.value))) for n in returned), er, er.loc(),
+            "_extract_requests does not return the requests it took out of the queue")
+
         dn = idx.func(NODE + "._deliver")
         r.site(dn, None, "fires unless cancelled")
         ps = first_positional_params(dn)
@@ -503,9 +878,14 @@ def run(ctx: Context):
 # -- wake-up discipline (clause (d) of the design; the rules live in C03) --------------------------------
 # A read terminates only if every state change of fetcher / finder / share schedules the loop that reacts
 # to it; a handler that returns without doing so leaves the read waiting although every server answered.
+# The same holds for the share bookkeeping below the fetcher: a finished share that stays in the active / overdue
+# map (C03.2), an observer that is never registered, a picked share that is never started or a block request
+# retired without telling its observers (C03.7) leave SegmentFetcher._do_loop waiting for an answer that cannot
+# come.  C03.4 / C03.5 / C03.8 are not adopted: their hang clauses are decided here by C46.3 / C46.7 and the rest of
+# them concerns a premature not-enough-shares verdict, which terminates the read.
 _run_termination = run
 
 
 def run(ctx: Context):   # noqa: F811
     _run_termination(ctx)
-    ctx.include("C03", ["C03.1", "C03.3", "C03.6"], "C46.6")
+    ctx.include("C03", ["C03.1", "C03.2", "C03.3", "C03.6", "C03.7"], "C46.6")
